@@ -16,6 +16,7 @@ var c12Progs = [][]string{
 	{"=ORG 0x7c00", "MOV|AX|1", "=CYLS EQU 10", "next:", "MOV|CH|CYLS", "JMP|next", "DB|\"a;b#c,d\"|0", "msg:", "DW|msg", "MOV|AL|[SI+2]"},
 	{"=[BITS 32]", "=GLOBAL _f", "_f:", "MOV|EAX|[ESP+4]", "ADD|EAX|[EBX+ESI*4+8]", "RET"},
 	{"=X EQU 3", "=Y EQU X*2", "lbl:", "DB|X|Y", "RESB|4", "ALIGNB|8", "JE|lbl", "HLT"},
+	{"GLOBAL|_fa|_fb|_fc", "EXTERN|_xa|_xb|_xc", "_fa:", "HLT", "_fb:", "NOP", "_fc:", "RET", "DW|_fa|_fb|_fc"},
 }
 
 // VC12: comments, spacing and line endings never change the output.
@@ -53,7 +54,7 @@ func VC12() {
 	if vrt.Choose("ckind", 2) == 0 {
 		c0 := vrt.Byte("c0", 0x20, 0x7e)
 		c1 := vrt.Byte("c1", 0x20, 0x7e)
-		ctext = "c" + string([]byte{c0}) + ";,#\"[" + string([]byte{c1})
+		ctext = "c" + string([]byte{c0}) + ";,#\"[: x:" + string([]byte{c1})
 	} else {
 		// a two-byte UTF-8 character (what a decoded Shift_JIS or UTF-8
 		// comment consists of), both bytes solver variables
